@@ -668,7 +668,7 @@ def check_real(run, ins, seed, own_ext, truth):
             return
         r = cd.read_json(path) if fmt == "json" else cd.read_h5(path)
         same = cd.same_json if fmt == "json" else cd.same_h5
-        mm = cd.Mismatch(site)
+        mm = cd.Mismatch(site, real=True)
         for k, v in fields.items():
             if k not in r:
                 mm.add("missing-field", [k], f"{tag} result has no {k!r}")
